@@ -477,6 +477,124 @@ func concurrentHistory(id int, rng *rand.Rand, dir string) vO {
 	return vO{"id": id, "kind": "conc", "events": rec.events, "realised": true, "outcome": "returned", "raw": string(raw)}
 }
 
+// ---------------------------------------------------------------- routing and re-processing of emissions (C14, mcrew host)
+
+// routeHistory: recorder machines a, b, c that emit fixed lists (a -> b, c; b -> c; acyclic) whenever they
+// are presented a message.  Every Process invocation is observed at the process-locked hook.
+func routeHistory(id int, rng *rand.Rand, dir string) vO {
+	ctx, cancel := context.WithCancel(context.Background())
+	defer cancel()
+	s, err := newVerifService(ctx, dir)
+	if err != nil {
+		panic(err)
+	}
+	defer func() {
+		if s.store.db != nil {
+			s.store.db.Close()
+		}
+		os.Remove(filepath.Join(dir, "verif.db"))
+	}()
+	var mu sync.Mutex
+	processed := vT{}
+	last := time.Now()
+	verifHook = func(point string, args ...interface{}) {
+		if point == "process-locked" {
+			mu.Lock()
+			if m, is := args[0].(map[string]interface{}); is {
+				processed = append(processed, fmt.Sprint(m["m"]))
+			} else {
+				processed = append(processed, fmt.Sprint(args[0]))
+			}
+			last = time.Now()
+			mu.Unlock()
+		}
+	}
+	defer func() { verifHook = nil }()
+	seq := 0
+	mk := func(tos []string) []interface{} {
+		out := []interface{}{}
+		for i, n := 0, rng.Intn(4); i < n; i++ {
+			seq++
+			m := map[string]interface{}{"m": "e" + strconv.Itoa(seq)}
+			if to := tos[rng.Intn(len(tos))]; to != "" {
+				m["to"] = to
+			}
+			out = append(out, m)
+		}
+		return out
+	}
+	emits := map[string][]interface{}{"a": mk([]string{"b", "c", "c", "nobody"}), "b": mk([]string{"c", "nobody"}), "c": {}}
+	machines := vO{}
+	for _, mid := range []string{"a", "b", "c"} {
+		if mid != "a" && rng.Intn(4) == 0 {
+			continue
+		}
+		if err := s.AddMachine(ctx, "counter", mid, "", match.Bindings{"emit": emits[mid]}); err != nil {
+			panic(err)
+		}
+		machines[mid] = vO{"emit": emits[mid]}
+	}
+	externals := vT{}
+	for i, n := 0, 1+rng.Intn(2); i < n; i++ {
+		seq++
+		m := map[string]interface{}{"m": "x" + strconv.Itoa(seq)}
+		switch rng.Intn(6) {
+		case 0: // broadcast
+		case 1:
+			m["to"] = float64(7) // not a machine id: broadcast
+		case 2:
+			m["to"] = "timers"
+			m["deleteTimer"] = "nosuchtimer"
+		case 3:
+			m["to"] = "nobody"
+		default:
+			m["to"] = "a"
+		}
+		desc := map[string]interface{}{}
+		for k, v := range m {
+			desc[k] = v
+		}
+		if _, is := desc["to"].(float64); is {
+			desc["to"] = "#nonstring" // (TLC cannot compare a number with strings)
+		}
+		delete(desc, "deleteTimer")
+		externals = append(externals, desc)
+		s.Process(ctx, m, nil)
+		// wait until the asynchronous re-processing has gone quiet
+		for {
+			time.Sleep(15 * time.Millisecond)
+			mu.Lock()
+			idle := time.Since(last)
+			mu.Unlock()
+			if idle > 60*time.Millisecond {
+				break
+			}
+		}
+	}
+	logs := vO{}
+	c := s.crew.Copy()
+	for mid, m := range c.Machines {
+		logs[mid] = logOf(m.State.Bs)
+	}
+	reported := vT{}
+	for {
+		select {
+		case m := <-s.Emitted:
+			if mm, is := m.(map[string]interface{}); is {
+				reported = append(reported, fmt.Sprint(mm["m"]))
+			}
+			continue
+		default:
+		}
+		break
+	}
+	mu.Lock()
+	pr := processed
+	mu.Unlock()
+	raw, _ := json.Marshal(vO{"machines": machines, "externals": externals})
+	return vO{"id": id, "kind": "mcrew-route", "machines": machines, "externals": externals, "processed": pr, "logs": logs, "reported": reported, "raw": string(raw)}
+}
+
 // ---------------------------------------------------------------- entry point
 
 func TestVerifDriver(t *testing.T) {
@@ -529,6 +647,10 @@ func TestVerifDriver(t *testing.T) {
 	case "svc-conc":
 		for id := 1; id <= n; id++ {
 			enc.Encode(concurrentHistory(id, rng, dir))
+		}
+	case "svc-route":
+		for id := 1; id <= n; id++ {
+			enc.Encode(routeHistory(id, rng, dir))
 		}
 	case "timers":
 		timersMain(t, enc, rng, n)
